@@ -1,4 +1,7 @@
 import Norad.Lemmas.C12
+import Norad.Lemmas.GlifTables
+import Norad.Lemmas.JudgeLink
+import Norad.Generated.GlifParser
 import Norad.Lemmas.C02
 import Norad.Lemmas.GlifGen
 import Norad.Props.C11
@@ -606,8 +609,14 @@ theorem attr_order_irrelevant (s : PS) {l₁ l₂ : List Attr} (hp : l₁.Perm l
 --   documents `parseGlif_attr_order_irrelevant` (section "attribute order, image/component and whole documents").
 -- Third phase: `legal_accepted` (end of this file) for the generative grammar `render f d` of `Lemmas/GlifGen.lean`: format 2,
 --   items in ANY order, comments anywhere, any attribute order (`EvsPerm`), any spelling that reads back.
--- OPEN: the link from the table-driven specification `Spec.judge rd (d : Spec.Doc) = ([], false)` to the hypotheses of
---   `legal_accepted` (per-element: `judge`-clean attribute list ⇒ a permutation of the canonical list of a valid object),
+-- Last phase, element level (`Lemmas/JudgeLink.lean`, audited): `elemCheck_clean` unpacks `Spec.elemCheck rd ver e = ([], false)`,
+--   `valueCheck_clean` turns each clean value check into the model's terms, `anchor_/guideline_/point_/component_/image_/
+--   advance_/unicode_clean_accepted` show that the model's attribute loop then succeeds for ANY attribute order (under
+--   `ReadsNumerals rd`: Rust reads every plain decimal numeral; identifier not seen before), and `clean_element_step` packages
+--   them: a judge-clean self-closing element is accepted in any parser state at its level.
+-- OPEN: the document level of that link — a fold over `Spec.Doc` items with the global clauses of `Spec.judge` (once-only counts,
+--   `hasDup (docIdents d)`, `contourCheck`'s `legalB` against the parsed points, the `glyph` start tag, object libs) so that
+--   `Spec.judge rd d = ([], false)` alone gives `parseGlif rd (Spec.flatten d) = .ok _`;
 --   and format 1.  Earlier note, kept:
 -- (was OPEN) legal_accepted for the whole grammar `Spec.flatten d` (any element order, comments anywhere, both versions).
 --   Kernel-checked instead (second phase, `Lemmas/C02.lean`, listed in the audit): acceptance element family by element
@@ -1020,5 +1029,173 @@ theorem legal_accepted (hc : Codec f rd nc ok) (d : GDoc) (hp : ∀ e, e ∈ d.p
   rw [← parseGlif_attr_order_irrelevant rd hperm, legal_accepted_gdoc hc d hp hn hL, hg]
 
 end
+
+/-! ## source-level tie (tables re-extracted from `src/glyph/parse.rs` by `tools/extract_glif_parser.py` on every run)
+
+The model tables are those of `Lemmas/GlifTables.lean`, where each is proved — for all strings — to characterise the model
+function it belongs to (`step_refuses_unknown`, `bodyStart_unknown`, `bodyEmpty_unknown`, `stepOutline_unknown`,
+`stepContour_unknown`, `v1_refusals`, `gFinish_ok_iff`).  Lists are compared as sets: the order of independent `match` arms
+is not part of the property.  Error variants inside one element (`UnexpectedAnchorField`, `BadAnchor`, …) are extracted for
+the record (`Generated.GlifParser.unknownAttrError`, `…MissingError`) but not tied: the model erases them by design. -/
+
+namespace SourceTie
+
+def sameSet (a b : List Str) : Bool := a.all (b.contains ·) && b.all (a.contains ·)
+
+/-- a number parser that knows one numeral -/
+def RS : Str → Option Nat := fun s => if s = ['0'] then some 0 else none
+
+def sampleVal (k : Str) : Str :=
+  if k = "name".toList then ['n'] else if k = "color".toList then "0,0,0,0".toList
+  else if k = "identifier".toList then ['i'] else if k = "type".toList then "line".toList
+  else if k = "smooth".toList then "yes".toList else if k = "fileName".toList then ['f']
+  else if k = "base".toList then ['b'] else if k = "hex".toList then "41".toList
+  else if k = "format".toList then ['2'] else ['0']
+
+def sample (ns : List Str) : List Attr := ns.map fun k => (k, sampleVal k)
+
+def modelAccepts (el : Str) (as : List Attr) : Bool :=
+  if el = sGlyph then (match parseGlyphAttrs (some as) with | .ok _ => true | .error _ => false)
+  else if el = sAdvance then (parseAdvance RS as).isSome
+  else if el = sUnicode then (parseUnicode [] as).isSome
+  else if el = sAnchor then (parseAnchor RS 2 [] as).isSome
+  else if el = sGuideline then (parseGuideline RS 2 [] as).isSome
+  else if el = sImage then (parseImage RS as).isSome
+  else if el = sPoint then (parsePoint RS 2 [] as).isSome
+  else if el = sComponent then (parseComponent RS 2 [] as).isSome
+  else if el = sContour then (parseContourAttrs 2 [] as).isSome
+  else false
+
+/-- **source tie**: the attribute names the loops of `parse.rs` accept are, element by element, the names the model's key
+    functions know (`Lemmas/GlifTables.lean` proves for all strings that a name outside the table is refused) -/
+theorem source_attribute_names_match_model :
+    sameSet Generated.GlifParser.glyphAttrs gKeys = true ∧ sameSet Generated.GlifParser.advanceAttrs advKeys = true ∧ sameSet Generated.GlifParser.unicodeAttrs uniKeys = true ∧
+    sameSet Generated.GlifParser.anchorAttrs aKeys = true ∧ sameSet Generated.GlifParser.guidelineAttrs guKeys = true ∧ sameSet Generated.GlifParser.imageAttrs iKeys = true ∧
+    sameSet Generated.GlifParser.pointAttrs pKeys = true ∧ sameSet Generated.GlifParser.componentAttrs cKeys = true ∧ sameSet Generated.GlifParser.contourAttrs ctKeys = true := by
+  decide +kernel
+
+def specAttrNames (el : Str) : List Str := ((Spec.attrTable el).getD []).map (·.1.toList)
+
+/-- … and the names of the specification's attribute table -/
+theorem source_attribute_names_match_spec :
+    sameSet Generated.GlifParser.advanceAttrs (specAttrNames sAdvance) = true ∧ sameSet Generated.GlifParser.unicodeAttrs (specAttrNames sUnicode) = true ∧
+    sameSet Generated.GlifParser.anchorAttrs (specAttrNames sAnchor) = true ∧ sameSet Generated.GlifParser.guidelineAttrs (specAttrNames sGuideline) = true ∧
+    sameSet Generated.GlifParser.imageAttrs (specAttrNames sImage) = true ∧ sameSet Generated.GlifParser.pointAttrs (specAttrNames sPoint) = true ∧
+    sameSet Generated.GlifParser.componentAttrs (specAttrNames sComponent) = true := by
+  decide +kernel
+
+def requiredTable : List (Str × List Str × List Str) :=
+  [(sAdvance, Generated.GlifParser.advanceAttrs, []), (sUnicode, Generated.GlifParser.unicodeAttrs, []),
+   (sAnchor, Generated.GlifParser.anchorAttrs, Generated.GlifParser.anchorRequired), (sImage, Generated.GlifParser.imageAttrs, Generated.GlifParser.imageRequired), (sPoint, Generated.GlifParser.pointAttrs, Generated.GlifParser.pointRequired),
+   (sComponent, Generated.GlifParser.componentAttrs, Generated.GlifParser.componentRequired), (sContour, Generated.GlifParser.contourAttrs, [])]
+
+/-- **source tie**: with every accepted attribute present the model accepts the element, and leaving one out is refused
+    exactly when the source marks it required -/
+theorem source_required_match_model :
+    requiredTable.all (fun r =>
+      modelAccepts r.1 (sample r.2.1) &&
+      r.2.1.all (fun n => modelAccepts r.1 (sample (r.2.1.erase n)) == !r.2.2.contains n)) = true ∧
+    modelAccepts sGlyph (sample Generated.GlifParser.glyphAttrs) = true ∧
+    Generated.GlifParser.glyphAttrs.all (fun n =>
+      (match parseGlyphAttrs (some (sample (Generated.GlifParser.glyphAttrs.erase n))) with
+       | .error .wrongFirstElement => true
+       | _ => false) == Generated.GlifParser.glyphRequired.contains n) = true := by
+  decide +kernel
+
+theorem source_required_match_spec :
+    sameSet Generated.GlifParser.anchorRequired ((Spec.required sAnchor).map String.toList) = true ∧
+    sameSet Generated.GlifParser.pointRequired ((Spec.required sPoint).map String.toList) = true ∧
+    sameSet Generated.GlifParser.componentRequired ((Spec.required sComponent).map String.toList) = true ∧
+    sameSet Generated.GlifParser.imageRequired ((Spec.required sImage).map String.toList) = true ∧
+    (Generated.GlifParser.glyphAttrs).all (fun n =>
+      (Spec.glyphAttrCheck { prolog := [], gattrs := some (sample ((Generated.GlifParser.glyphAttrs).erase n)), items := [] }).contains "glyph-name"
+        == (Generated.GlifParser.glyphRequired).contains n) = true := by
+  decide +kernel
+
+def subsets3 : List (List Str) :=
+  [[], [['x']], [['y']], ["angle".toList], [['x'], ['y']], [['x'], "angle".toList], [['y'], "angle".toList],
+   [['x'], ['y'], "angle".toList]]
+
+/-- **source tie**: the guideline shapes of `parse_guideline` are the ones the model and the specification accept -/
+theorem source_guideline_shapes_match :
+    subsets3.all (fun sub =>
+      (modelAccepts sGuideline (sample sub) == (Generated.GlifParser.guidelineShapes).any (sameSet sub)) &&
+      ((Spec.elemCheck RS 2 { name := sGuideline, attrs := some (sample sub) }).1.contains "guideline-shape"
+        == !(Generated.GlifParser.guidelineShapes).any (sameSet sub))) = true := by
+  decide +kernel
+
+/-- **source tie**: the element names each level of `parse.rs` dispatches, the format-1 refusals and the once-only guards
+    are the model's tables (each proved to characterise the model function it belongs to) -/
+theorem source_dispatch_matches_model :
+    sameSet Generated.GlifParser.bodyStartNames Glif.bodyStartNames = true ∧ sameSet Generated.GlifParser.bodyEmptyNames Glif.bodyEmptyNames = true ∧
+    sameSet Generated.GlifParser.outlineStartNames Glif.outlineStartNames = true ∧ sameSet Generated.GlifParser.outlineEmptyNames Glif.outlineEmptyNames = true ∧
+    sameSet Generated.GlifParser.contourEmptyNames Glif.contourEmptyNames = true ∧
+    sameSet Generated.GlifParser.v1RefusedStart Glif.v1RefusedStart = true ∧ sameSet Generated.GlifParser.v1RefusedEmpty Glif.v1RefusedEmpty = true ∧
+    sameSet Generated.GlifParser.onceByFlag Glif.onceByFlag = true ∧ sameSet Generated.GlifParser.onceByContent Glif.onceByContent = true ∧
+    Generated.GlifParser.rootName = sGlyph ∧
+    ((Generated.GlifParser.supportedVersions).all (modelVersions.contains ·) && modelVersions.all ((Generated.GlifParser.supportedVersions).contains ·)) = true ∧
+    sameSet Generated.GlifParser.outlineEmptyIgnored [sContour] = true := by
+  decide +kernel
+
+def v1Flagged (n : Str) : Bool :=
+  if n = sNote then (Spec.itemCheck RS 1 (.note (some []) [])).1.contains "v1-element"
+  else (Spec.itemCheck RS 1 (.elem { name := n, attrs := some [] })).1.contains "v1-element"
+
+theorem source_dispatch_matches_spec :
+    sameSet Generated.GlifParser.bodyEmptyNames (sOutline :: Spec.bodyNames) = true ∧
+    sameSet (Generated.GlifParser.onceByFlag ++ Generated.GlifParser.onceByContent) (Spec.onceOnly.map String.toList) = true ∧
+    (Generated.GlifParser.bodyEmptyNames ++ Generated.GlifParser.bodyStartNames).all (fun n =>
+      v1Flagged n == (Generated.GlifParser.v1RefusedStart ++ Generated.GlifParser.v1RefusedEmpty).contains n) = true := by
+  decide +kernel
+
+def s0 : PS := { g := { name := ['a'] }, ver := 2 }
+def junk : Str := "junk".toList
+
+/-- **source tie**: comments are skipped at the three levels where the source skips them, and the refusals the model
+    distinguishes carry the error variant the source returns -/
+theorem source_level_errors_match_model :
+    Generated.GlifParser.bodySkipsComments = (stepErrName (stepBody RS s0 .comment)).isNone ∧
+    Generated.GlifParser.outlineSkipsComments = (stepErrName (stepOutline RS s0 {} .comment)).isNone ∧
+    Generated.GlifParser.contourSkipsComments = (stepErrName (stepContour RS s0 {} none [] .comment)).isNone ∧
+    stepErrName (stepBody RS s0 .other) = some Generated.GlifParser.bodyOtherError ∧
+    stepErrName (bodyStart s0 junk) = some Generated.GlifParser.bodyStartDefaultError ∧
+    stepErrName (bodyEmpty RS s0 junk none) = some Generated.GlifParser.bodyEmptyDefaultError ∧
+    stepErrName (stepOutline RS s0 {} (.start junk none)) = some Generated.GlifParser.outlineStartDefaultError ∧
+    stepErrName (stepOutline RS s0 {} (.empty junk none)) = some Generated.GlifParser.outlineEmptyDefaultError ∧
+    stepErrName (stepOutline RS s0 {} .other) = some Generated.GlifParser.outlineOtherError ∧
+    (eofKind (.outline {})).rustName = Generated.GlifParser.outlineEofError ∧
+    stepErrName (stepContour RS s0 {} none [] .other) = some Generated.GlifParser.contourOtherError ∧
+    (eofKind (.contour {} none [])).rustName = Generated.GlifParser.contourEofError ∧
+    (match scanStart [.other] with | .error k => k.rustName | .ok _ => []) = Generated.GlifParser.startOtherError ∧
+    (match gFinish { name := some [], major := 3 } with | .error k => k.rustName | .ok _ => []) = Generated.GlifParser.unsupportedVersionError ∧
+    (match gFinish {} with | .error k => k.rustName | .ok _ => []) = Generated.GlifParser.glyphMissingError ∧
+    sameSet Generated.GlifParser.startSkips ["Comment".toList, "Decl".toList] = true := by
+  decide +kernel
+
+/-- **source tie**: the defaults of `parse.rs` (point type, smooth, advance, format numbers, identity transform) are the
+    model's and the specification's -/
+theorem source_defaults_match :
+    ptRustName ({} : PointAcc).typ = Generated.GlifParser.pointTypeDefault ∧ ({} : PointAcc).smooth = Generated.GlifParser.smoothDefault ∧
+    ptRustName (Spec.ptOfElem { name := sPoint, attrs := some [] }).typ = Generated.GlifParser.pointTypeDefault ∧
+    (Spec.ptOfElem { name := sPoint, attrs := some [] }).smooth = Generated.GlifParser.smoothDefault ∧
+    (match parseAdvance RS [] with | some (w, h) => [w, h] | none => []) = Generated.GlifParser.advanceDefaults ∧
+    [({} : GlyphAcc).major, ({} : GlyphAcc).minor] = Generated.GlifParser.formatDefaults ∧
+    [({} : Transform).xScale, ({} : Transform).xyScale, ({} : Transform).yxScale, ({} : Transform).yScale,
+     ({} : Transform).xOffset, ({} : Transform).yOffset] = Generated.GlifParser.transformDefault := by
+  decide +kernel
+
+end SourceTie
+
+/-! ### the specification's element check and the model (non-vacuity of the link) -/
+
+-- `ReadsNumerals` is satisfiable, a clean element exists, and `clean_element_step` applies to it
+example : ReadsNumerals (fun _ => some 0) := fun _ _ => ⟨0, rfl⟩
+example :
+    stepContinues (step (fun _ => some 0) { g := { name := ['a'] }, ver := 2 }
+      (.empty sAnchor (some [(['y'], ['2']), ("name".toList, ['t']), (['x'], ['1'])]))) = true :=
+  (clean_element_step (rd := fun _ => some 0) (fun _ _ => ⟨0, rfl⟩)
+    (s := { g := { name := ['a'] }, ver := 2 })
+    (e := { name := sAnchor, attrs := some [(['y'], ['2']), ("name".toList, ['t']), (['x'], ['1'])] })
+    (by decide +kernel) (by intro as v _ _ h; cases h)).2.2.1 rfl rfl
 
 end Glif
